@@ -7,6 +7,7 @@ From Coq Require Import String Ascii Lia.
 Open Scope Z_scope.
 
 Section Generic.
+Variable kwl : bool.
 Variable kws : list string.
 Variable regs : list regclass.
 
@@ -67,7 +68,7 @@ Lemma atom_roundtrip : forall a r ops,
   atom_ok kws regs a = true -> ops_ok kws regs (a :: r) ops = true ->
   exists ts ops' o,
     render_atom regs a ops = Some (ts, ops') /\
-    (forall rest, match_atom kws regs a (ts ++ rest) = Some (o, rest)) /\
+    (forall rest, match_atom kwl kws regs a (ts ++ rest) = Some (o, rest)) /\
     ops = (match o with Some v => v :: ops' | None => ops' end) /\
     ops_ok kws regs r ops' = true.
 Proof.
@@ -99,7 +100,7 @@ Qed.
 
 Lemma rule_roundtrip : forall rule ops,
   forallb (atom_ok kws regs) rule = true -> ops_ok kws regs rule ops = true ->
-  exists toks, render regs rule ops = Some toks /\ matches kws regs rule toks = Some ops.
+  exists toks, render regs rule ops = Some toks /\ matches kwl kws regs rule toks = Some ops.
 Proof.
   induction rule as [|a r IH]; intros ops Hw Ho.
   - destruct ops; [|discriminate]. exists []. split; reflexivity.
@@ -112,7 +113,7 @@ Qed.
 
 Theorem entry_render_matches : forall e ops,
   wf_entry kws regs e = true -> ops_ok kws regs (s_rule e) ops = true ->
-  exists toks, render regs (s_syn e) ops = Some toks /\ matches kws regs (s_rule e) toks = Some ops.
+  exists toks, render regs (s_syn e) ops = Some toks /\ matches kwl kws regs (s_rule e) toks = Some ops.
 Proof.
   intros e ops Hw Ho. unfold wf_entry in Hw.
   apply andb_true_iff in Hw. destruct Hw as [Hw H3]. apply andb_true_iff in Hw. destruct Hw as [H1 _].
@@ -130,7 +131,7 @@ Proof.
   inversion H. exists ts, ops', toks'. repeat split; auto.
 Qed.
 
-Lemma matches_nil_toks : forall b t', matches kws regs (b :: t') [] = None.
+Lemma matches_nil_toks : forall b t', matches kwl kws regs (b :: t') [] = None.
 Proof. intros b t'. cbn [matches]. destruct b; reflexivity. Qed.
 
 (* the printed form of a production that does not start with an int operand does not start with a number *)
@@ -166,7 +167,7 @@ Ltac fin_none :=
   repeat match goal with
   | |- None = None => reflexivity
   | |- context [if ?c then _ else _] => destruct c eqn:?
-  | |- context [match matches kws regs ?t ?k with _ => _ end] => destruct (matches kws regs t k) eqn:?
+  | |- context [match matches kwl kws regs ?t ?k with _ => _ end] => destruct (matches kwl kws regs t k) eqn:?
   | _ => progress cbn [andb orb] in *
   | _ => discriminate
   | _ => congruence
@@ -175,7 +176,7 @@ Ltac fin_none :=
 Lemma unify_dir_sound_n : forall n s t ops toks,
   (List.length s <= n)%nat ->
   forallb (atom_ok kws regs) s = true -> ops_ok kws regs s ops = true ->
-  render regs s ops = Some toks -> unify_dir regs s t = false -> matches kws regs t toks = None.
+  render regs s ops = Some toks -> unify_dir regs s t = false -> matches kwl kws regs t toks = None.
 Proof.
   induction n as [|n IH]; intros s t ops toks Hl Hw Ho Hr Hu.
   - destruct s; [|cbn in Hl; lia]. cbn in Hr. destruct ops; inversion Hr.
@@ -187,7 +188,7 @@ Proof.
     destruct (atom_roundtrip a s' ops Ha Ho) as (ts & ops' & o & R & M & E & O).
     destruct (render_cons _ _ _ _ Hr) as (ts0 & ops0 & toks' & R0 & R' & Et).
     rewrite R in R0. inversion R0; subst ts0 ops0. clear R0. subst toks.
-    assert (IHs' : forall t', unify_dir regs s' t' = false -> matches kws regs t' toks' = None).
+    assert (IHs' : forall t', unify_dir regs s' t' = false -> matches kwl kws regs t' toks' = None).
     { intros t' U. apply (IH s' t' ops' toks'); auto. lia. }
     destruct t as [|b t'].
     { destruct a; cbn in Ha; try discriminate; cbn [render_atom] in R.
@@ -265,7 +266,7 @@ Qed.
 
 Theorem unify_dir_sound : forall s t ops toks,
   forallb (atom_ok kws regs) s = true -> ops_ok kws regs s ops = true ->
-  render regs s ops = Some toks -> unify_dir regs s t = false -> matches kws regs t toks = None.
+  render regs s ops = Some toks -> unify_dir regs s t = false -> matches kwl kws regs t toks = None.
 Proof. intros. eapply unify_dir_sound_n; eauto. Qed.
 
 (* ---------------------------------------------------------------- (3) the computed pair list is complete *)
@@ -338,6 +339,7 @@ Proof.
 Qed.
 
 Section Table.
+Variable kwl : bool.
 Variables (kws : list string) (regs : list regclass) (stab extra nonwf : list sentry) (amb : list (nat * nat)).
 Hypothesis TF : table_facts kws regs stab extra nonwf amb.
 
@@ -349,7 +351,7 @@ Qed.
 Theorem table_render_matches : forall i ops,
   (i < List.length stab)%nat -> ops_ok kws regs (s_rule (entry_at stab i)) ops = true ->
   exists toks, render regs (s_syn (entry_at stab i)) ops = Some toks /\
-               matches kws regs (s_rule (entry_at stab i)) toks = Some ops.
+               matches kwl kws regs (s_rule (entry_at stab i)) toks = Some ops.
 Proof. intros i ops Hi Ho. apply entry_render_matches; [apply stab_wf; exact Hi|exact Ho]. Qed.
 
 Theorem table_unambiguous : forall i j ops toks,
@@ -357,7 +359,7 @@ Theorem table_unambiguous : forall i j ops toks,
   in_pairs i amb = false ->
   ops_ok kws regs (s_rule (entry_at stab i)) ops = true ->
   render regs (s_syn (entry_at stab i)) ops = Some toks ->
-  matches kws regs (s_rule (entry_at (stab ++ extra) j)) toks = None.
+  matches kwl kws regs (s_rule (entry_at (stab ++ extra) j)) toks = None.
 Proof.
   intros i j ops toks Hi Hj Hne Hamb Ho Hr.
   pose proof (stab_wf i Hi) as Hw. unfold wf_entry in Hw.
@@ -387,7 +389,7 @@ Theorem table_roundtrip : forall i j ops ops' toks,
   in_pairs i amb = false ->
   ops_ok kws regs (s_rule (entry_at stab i)) ops = true ->
   render regs (s_syn (entry_at stab i)) ops = Some toks ->
-  matches kws regs (s_rule (entry_at (stab ++ extra) j)) toks = Some ops' ->
+  matches kwl kws regs (s_rule (entry_at (stab ++ extra) j)) toks = Some ops' ->
   j = i /\ ops' = ops.
 Proof.
   intros i j ops ops' toks Hi Hj Hamb Ho Hr Hm.
@@ -410,20 +412,33 @@ Definition desc_for (tab : list instr_desc) (e : sentry) : instr_desc :=
   | None => empty_desc
   end.
 
-Theorem table_roundtrip_bytes : forall kws regs stab extra nonwf amb (tab : list instr_desc),
+Theorem table_roundtrip_bytes : forall kwl kws regs stab extra nonwf amb (tab : list instr_desc),
   table_facts kws regs stab extra nonwf amb ->
   forall i j ops ops' toks,
   (i < List.length stab)%nat -> (j < List.length (stab ++ extra))%nat ->
   in_pairs i amb = false ->
   ops_ok kws regs (s_rule (entry_at stab i)) ops = true ->
   render regs (s_syn (entry_at stab i)) ops = Some toks ->
-  matches kws regs (s_rule (entry_at (stab ++ extra) j)) toks = Some ops' ->
+  matches kwl kws regs (s_rule (entry_at (stab ++ extra) j)) toks = Some ops' ->
   encode_instr (desc_for tab (entry_at (stab ++ extra) j)) (zops regs (s_rule (entry_at (stab ++ extra) j)) ops') =
   encode_instr (desc_for tab (entry_at stab i)) (zops regs (s_rule (entry_at stab i)) ops).
 Proof.
-  intros kws regs stab extra nonwf amb tab TF i j ops ops' toks Hi Hj Hamb Ho Hr Hm.
-  destruct (table_roundtrip kws regs stab extra nonwf amb TF i j ops ops' toks Hi Hj Hamb Ho Hr Hm) as [E1 E2].
+  intros kwl kws regs stab extra nonwf amb tab TF i j ops ops' toks Hi Hj Hamb Ho Hr Hm.
+  destruct (table_roundtrip kwl kws regs stab extra nonwf amb TF i j ops ops' toks Hi Hj Hamb Ho Hr Hm) as [E1 E2].
   subst j ops'.
   assert (Ei : entry_at (stab ++ extra) i = entry_at stab i) by (unfold entry_at; apply app_nth1; exact Hi).
   rewrite Ei. reflexivity.
+Qed.
+
+(* keyword labels: with kwl = true (`$str$ -> <keyword>` returns the keyword, current ppci) a label that is a
+   keyword written in another letter case is recognised as the lower-case keyword, not as the label printed *)
+Theorem keyword_label_refuted :
+  exists kws regs e s, wf_entry kws regs e = true /\ is_ident s = true /\
+    exists toks, render regs (s_syn e) [VLabel s] = Some toks /\
+                 matches true kws regs (s_rule e) toks = Some [VLabel (lower s)] /\ lower s <> s.
+Proof.
+  exists ["j"; "add"]%string, [], (mkS "B" "" 0 [ALit "j"; ASp; ALab] [ALit "j"; ALab]), "Add"%string.
+  split; [vm_compute; reflexivity|]. split; [vm_compute; reflexivity|].
+  exists [TWord "j"; TWord "Add"]. split; [reflexivity|]. split; [vm_compute; reflexivity|].
+  vm_compute. discriminate.
 Qed.
